@@ -339,7 +339,12 @@ class FakeSnowflakeCursor:
                     self._conn.database = None
                     self._conn.schema = None
 
-                elif cmd == "DROP SCHEMA" and ident == self._conn.schema:
+                elif (
+                    cmd == "DROP SCHEMA"
+                    and ident == self._conn.schema
+                    # a schema of the same name in another database is not the current schema
+                    and (not (dropped := transformed.find(exp.Table)) or not dropped.catalog or dropped.catalog == self._conn.database)
+                ):
                     self._conn.schema = None
 
         if table_comment := cast(tuple[exp.Table, str], transformed.args.get("table_comment")):
